@@ -17,7 +17,7 @@ import shutil
 from vlib import core
 
 PRE = ("From Coq Require Import List NArith Bool.\nImport ListNotations.\n"
-       "From LI Require Import Parser.Merge Parser.MergeCheck.\nOpen Scope N_scope.\n")
+       "From LI Require Import Parser.Merge Parser.MergeCheck Parser.MergeWf.\nOpen Scope N_scope.\n")
 
 LOCALE_POOL = ["en", "fr", "de", "it", "es", "fr-CA", "pt-BR", "en-GB", "nl", "ja"]
 KEY_POOL = ["a", "b", "c", "d", "e", "g", "h", "k_x", "sub", "title", "zz", "m1", "n-2", "B", "Z9"]
